@@ -406,7 +406,7 @@ def gen_trace(rng):
 
 
 def plan(tier, seed, args):
-    n = args.runs or (5000 if tier == "quick" else 60000)
+    n = args.runs or (3500 if tier == "quick" else 50000)
     return [{"run": i, "seed": seed, "tier": tier} for i in range(n)]
 
 
